@@ -59,7 +59,7 @@ Definition sl_realloc {A} (zero : A) (s : slice A) (n : Z) : slice A :=
   mkSlice (takeZ k (arr s) ++ repeat zero (Z.to_nat (n - k))) n.
 
 (** * seqCounters *)
-Definition counter : Type := Z * Z.      (* seqNr, count *)
+Notation counter := (Z * Z)%type (only parsing).      (* seqNr, count *)
 Definition czero : counter := (0, 0).
 
 Record sc := mkSc { sc_sl : slice counter; sc_n : Z (* _nrCounters *); sc_w : Z (* windowSize *) }.
